@@ -227,6 +227,9 @@ func rpc(c *harness.Ctx) {
 				if c.Cfg["outcomes"] == "errors" {
 					w.drawOutcome(call, sharedErrs)
 				}
+				if c.Cfg["byzclient"] != "" && !call.MustReject && c.Choose(2, "byzclient?") == 1 {
+					byzantineClient(c, call)
+				}
 				if c.Cfg["keys"] == "adv" {
 					w.adversarialKeys(call)
 				}
@@ -385,6 +388,13 @@ func checkCall(c *harness.Ctx, w *World, call *Call, world string) {
 		}
 	}
 	if checkDamagedPath(c, w, call, where) {
+		return
+	}
+	if checkByzantineClient(c, call, where) {
+		return
+	}
+	checkWireExclusion(c, call, where)
+	if c.Failed() {
 		return
 	}
 	if stripExpect400(call, w) {
